@@ -254,6 +254,7 @@ func init() {
 		return n
 	}
 	vfNatives["vfHashBits"] = func(fr *frame, a []value) value { fr.i.side["hashbits"] = int(asInt64(a[0])); return nil }
+	vfNatives["vfHashConcrete"] = func(fr *frame, a []value) value { fr.i.side["hashconcrete"] = true; return nil }
 	vfNatives["vfSchedBudget"] = func(fr *frame, a []value) value { fr.i.S.switchBudget = int(asInt64(a[0])); return nil }
 	vfNatives["vfMaxTicks"] = func(fr *frame, a []value) value { fr.i.S.maxTicks = int(asInt64(a[0])); return nil }
 	vfNatives["vfExpectPanic"] = func(fr *frame, a []value) value { fr.i.p.expectPanic = argString(a[0]); return nil }
@@ -1101,6 +1102,15 @@ func (i *interpreter) hashStub(in []value) []value {
 			// eqIn <=> eqOut
 			c := i.vAnd(i.vOr(i.vNot(eqIn), eqOut), i.vOr(i.vNot(eqOut), eqIn))
 			i.p.assumeEnv(c)
+		}
+	}
+	if _, ok := i.side["hashconcrete"]; ok && !i.p.concrete {
+		// the digest is still chosen by the solver (every value consistent with
+		// injectivity is explored) but is concrete on each path
+		for k := range out {
+			if t, ok := out[k].(*Term); ok {
+				out[k] = uint8(i.p.concretize(t, "hash byte"))
+			}
 		}
 	}
 	entries = append(entries, hashEntry{in: append([]value{}, in...), out: out})
